@@ -235,6 +235,12 @@ def build(chk):
                 P.fail('no-panic', witness)
                 return
             v = sf.denote(lambda i: xs[i].r)
+            # asked first with a margin of 1 (implied by the exact claim): a counterexample to it survives the rounding tolerance of the
+            # native replay judge, whereas the solver is otherwise free to return a violation of size 1e-32
+            lo_, hi_ = res.f
+            margin = b_and(r_cmp('le', r_sub(lo_.r, Fraction(1)), v) if lo_.tag == 'fin' else True, r_cmp('le', v, r_add(hi_.r, Fraction(1))) if hi_.tag == 'fin' else True)
+            if not P.require('function-value-enclosed-within-margin-1', margin, witness):
+                return
             P.require('function-value-enclosed', encloses(res, v), witness)
         return h
     shapes = [(('constant',), False, [()]), (('linear', 1), False, [(0,), (2,)]), (('linear', 2), False, [(0, 1), (0, 0), (0, 2)]),
